@@ -83,6 +83,7 @@ fn kind_args(k: Kind, spec: &WorldSpec) -> Vec<String> {
 fn gen_c14(seed: u64, idx: usize, _tier: Tier) -> C14Scenario {
     let mut rng = Rng::new(scenario_seed(seed, "C14", idx));
     let mut spec = flat_world(&mut rng, 2, 1, 3, 0, true);
+    crate::props_run::clockify(&mut spec, seed, "C14-clock", idx, 4);
     if rng.chance(1, 4) {
         spec.lock_host = Some("localhost".into());
     }
